@@ -166,6 +166,20 @@ theorem no_stuck_join_side {cfg : Config} {s : State} (hrep : cfg.repaired = tru
     (hw : ∃ w, liveWorker s w) : ∃ t, enabled s t = true :=
   joinSide_holds hrep hwf s h hsl hw
 
+/-- Shutdown side: while `~ThreadPool` waits in `Thread::join` for a worker, some thread can take a step (the destructor's
+    `_threadCount` terminate jobs reach every serving worker). -/
+theorem no_stuck_shutdown_side {cfg : Config} {s : State} (hrep : cfg.repaired = true) (h : Reach cfg s)
+    (hd : ∃ i, topFrame s 0 = some (.dJoin i)) : ∃ t, enabled s t = true :=
+  Nstd.Future.no_stuck_shutdown_side hrep h hd
+
+/-- Deadlock freedom while a worker lives: in every reachable state of the repaired system in which some worker thread is
+    alive, some thread can take a step — for every schedule, any number of client threads, workers and futures, any queue
+    capacity and thread limits (each future used by one client thread).  Composition of the worker, producer, join and
+    shutdown sides with the Signal-layer progress lemmas. -/
+theorem no_stuck_while_a_worker_lives {cfg : Config} {s : State} (hrep : cfg.repaired = true) (hwf : cfg.WellFormed)
+    (h : Reach cfg s) (hw : ∃ w, liveWorker s w) : ∃ t, enabled s t = true :=
+  Nstd.Future.no_stuck_while_a_worker_lives hrep hwf h hw
+
 /-- Mutual exclusion and progress of the simulated Signal layer inside the full model (both code variants): the two
     pool signals' mutexes are exclusive; a thread blocked on any Signal mutex has an owner that can step; a thread
     blocked on the pool mutex implies some other thread can step; no sleeper of a pool signal misses a set flag (a setter
